@@ -11,6 +11,11 @@ THEOREMS = ["c20_complete", "c20_copy_establishes", "c20_internal_links", "c20_d
             "c20_source_independent", "c20_fresh_ids", "c20_existing_name_refused"]
 # scripted copies of every kind x id policy x recursive flag on sources that have content (handles: 0 = file)
 COPY_PRELUDES = [
+    # kept-id copies INSIDE the parent (two arrays / two sub-sections with one id), then the parent copied with FRESH ids:
+    # the copy's ids must be pairwise different all the same
+    [["create", 0, "CBlocks", "B", "t", []], ["create", 1, "CDataArrays", "a", "t", [1, 2]], ["copy", 1, 2, "a-copy", True, True],
+     ["copy", 0, 1, "B-fresh", False, True], ["create", 0, "CSections", "s", "t", []], ["create", 5, "CSections", "sub", "t", []],
+     ["create", 6, "CProperties", "p", "t", [1]], ["copy", 5, 6, "sub-copy", True, True], ["copy", 0, 5, "s-fresh", False, True]],
     # sections: s(1){p(2), q(3), c(4){r(5)}}, d(6); every variant of copy_section / property copy
     [["create", 0, "CSections", "s", "t", []], ["create", 1, "CProperties", "p", "t", [1, 2]], ["create", 1, "CProperties", "q", "t", [3]],
      ["create", 1, "CSections", "c", "t", []], ["create", 4, "CProperties", "r", "t", [4]], ["create", 0, "CSections", "d", "t", []],
